@@ -29,7 +29,7 @@ export CARGO_NET_OFFLINE=true
 export RUSTFLAGS=""
 
 progs=("$@")
-[ ${#progs[@]} -eq 0 ] && progs=(d4_debt_return d5_stale_candidate)
+[ ${#progs[@]} -eq 0 ] && progs=(d4_debt_return d5_stale_candidate d6_swap_handover)
 rc=0
 for p in "${progs[@]}"; do
   if [ ! -d "$HERE/$p" ]; then echo "FAIL $p (no such program)"; rc=1; continue; fi
